@@ -24,6 +24,7 @@ type FuncResult struct {
 	Lines      int
 	UsedLib    []string
 	UsedCtr    []string
+	Consistency string // result of the final check-sat on the whole background: sat/unknown expected
 }
 
 type SolverCfg struct {
@@ -89,6 +90,12 @@ func (e *Enc) incrementalScript(perQueryMs int) string {
 		}
 		b.WriteString("(check-sat)\n(pop 1)\n")
 	}
+	// vacuity guard: the whole background must be consistent
+	for _, l := range e.lines[at:] {
+		b.WriteString(l)
+		b.WriteByte('\n')
+	}
+	b.WriteString("(check-sat)\n")
 	return b.String()
 }
 
@@ -142,10 +149,20 @@ func solveFunc(fr *FuncResult, cfg SolverCfg) {
 	}
 	out, secs := runSolver(context.Background(), solverCmds[0], script, total)
 	results := resRe.FindAllStringSubmatch(out, -1)
+	if strings.Contains(out, "(error") {
+		// a malformed script is an engine bug: nothing from this run is believed
+		results = nil
+		fmt.Fprintf(os.Stderr, "govc: solver reported an error for %s: %s\n", fr.Name, firstLine(out[strings.Index(out, "(error"):]))
+	}
 	if cfg.KeepFiles {
 		os.WriteFile(filepath.Join(cfg.WorkDir, sanitize(fr.Name)+".inc.smt2"), []byte(script), 0o644)
 	}
 	per := secs / float64(len(fr.Obls))
+	if len(results) == len(fr.Obls)+1 {
+		fr.Consistency = results[len(fr.Obls)][1]
+	} else {
+		fr.Consistency = "not-run"
+	}
 	for i, o := range fr.Obls {
 		if i < len(results) {
 			o.Status = results[i][1]
